@@ -67,21 +67,22 @@ Inductive unpacks (off w : N) (c : list N) : Prop :=
               file off (on_disk w) = RdOk c -> unpacks off w c
 | up_packed raw : is_sparse w = false -> is_compressed w = true -> on_disk w <= len c ->
               file off (on_disk w) = RdOk raw ->
-              (forall k, len c <= k -> uncompress raw k = UOk c) -> unpacks off w c.
+              (forall k, len c <= k -> exists rest, uncompress raw k = UOk c rest) -> unpacks off w c.
 
 Definition usz (w : N) (c : list N) (k : N) : N := if is_sparse w then k else len c.
 
 Lemma getb_unpacks off w c k :
   unpacks off w c -> 0 < len c -> len c <= k ->
-  getb off w k = Ok (c ++ zeros (k - len c), usz w c k).
+  exists z, getb off w k = Ok (c ++ z, usz w c k).
 Proof.
   intros U P K. unfold get_block, usz.
   destruct U as [S Z|S C O F|raw S C O F D]; rewrite S.
-  - f_equal. f_equal. rewrite Z at 1. rewrite zeros_app. f_equal. lia.
-  - destruct (N.ltb_spec k (on_disk w)); [lia|]. rewrite F, C, O, overwrite_zeros. reflexivity.
-  - destruct (N.ltb_spec k (on_disk w)); [lia|]. rewrite F, C, (D k K).
+  - exists (zeros (k - len c)). f_equal. f_equal. rewrite Z at 1. rewrite zeros_app. f_equal. lia.
+  - destruct (N.ltb_spec k (on_disk w)); [lia|]. rewrite F, C, O, overwrite_zeros. eauto.
+  - destruct (N.ltb_spec k (on_disk w)); [lia|]. rewrite F, C.
+    destruct (D k K) as [rest E]. rewrite E.
     destruct (N.eqb_spec (len c) 0); [lia|].
-    destruct (N.ltb_spec k (len c)); [lia|]. rewrite overwrite_zeros. reflexivity.
+    destruct (N.ltb_spec k (len c)); [lia|]. rewrite overwrite_zeros, <- app_assoc. eauto.
 Qed.
 
 (* ---------------- a file as the library lays it out ---------------- *)
@@ -183,10 +184,318 @@ Proof.
               (tail_cases _ _ _ _ W) ltac:(lia))
     as (off' & fs' & w & c & BP & NE & U & P & UN).
   rewrite BP, UN.
-  rewrite (getb_unpacks off' w c (len c) U P ltac:(lia)).
-  rewrite N.sub_diag, zeros_0, app_nil_r.
+  destruct (getb_unpacks off' w c (len c) U P ltac:(lia)) as [z G]. rewrite G.
   rewrite (nth_error_nth _ _ _ NE).
-  f_equal. unfold usz. destruct (is_sparse w); unfold len; rewrite Nat2N.id; apply firstn_all.
+  f_equal. unfold usz. destruct (is_sparse w); apply firstn_len_app.
+Qed.
+
+
+(* ---------------- sizes ---------------- *)
+
+Lemma layout_total_le : forall ws cs off, layout off ws cs -> total cs <= N.of_nat (length cs) * bs.
+Proof.
+  induction ws as [|w ws IH]; intros [|c cs] off L; cbn in L; try contradiction.
+  - rewrite total_nil. lia.
+  - destruct L as (_ & _ & Le & _ & _ & L'). rewrite total_cons. specialize (IH cs _ L').
+    cbn [length]. lia.
+Qed.
+
+Lemma full_total cs : Forall (fun c => len c = bs) cs -> total cs = N.of_nat (length cs) * bs.
+Proof.
+  induction cs as [|c cs IH]; intro F.
+  - rewrite total_nil. cbn. lia.
+  - rewrite total_cons. rewrite (Forall_inv F), (IH (Forall_inv_tail F)). cbn [length]. lia.
+Qed.
+
+Lemma layout_total_ge : forall ws cs off,
+  layout off ws cs -> N.of_nat (length cs) * bs <= total cs + bs.
+Proof.
+  induction ws as [|w ws IH]; intros [|c cs] off L; cbn in L; try contradiction.
+  - rewrite total_nil. cbn. lia.
+  - destruct L as (_ & P & Le & Full & _ & L'). rewrite total_cons. specialize (IH cs _ L').
+    destruct cs as [|c2 cs2].
+    + rewrite total_nil. cbn [length]. lia.
+    + assert (len c = bs) by (apply Full; discriminate). cbn [length] in *. lia.
+Qed.
+
+Lemma layout_pos : forall ws cs off, layout off ws cs -> cs <> [] -> 0 < total cs.
+Proof.
+  intros [|w ws] [|c cs] off L NE; cbn in L; try contradiction; try congruence.
+  destruct L as (_ & P & _). rewrite total_cons. lia.
+Qed.
+
+(* ---------------- the fragment ---------------- *)
+
+Notation dcoh := (dcoherent uncompress file bs).
+
+Lemma agree_get_fragment tbl f cs tail d :
+  wf_file tbl f cs tail -> dcoh d -> d_tbl d = tbl ->
+  fst (api_get_fragment uncompress file bs d f) = Ok tail.
+Proof.
+  intros W C T. pose proof (wf_layout _ _ _ _ W) as L.
+  pose proof (layout_length _ _ _ L) as EL.
+  pose proof (layout_total_le _ _ _ L) as TL.
+  unfold api_get_fragment. unfold len at 1. rewrite EL.
+  destruct (wf_tail _ _ _ _ W) as [E|(F & P & Lt & fb & fsz & FL & B1 & B2 & SL)].
+  - subst tail. destruct (N.leb_spec (f_size f) (N.of_nat (length cs) * bs)) as [_|Bad]; [reflexivity|].
+    rewrite (wf_size _ _ _ _ W) in Bad. cbn in Bad. lia.
+  - pose proof (full_total cs F) as FT.
+    destruct (N.leb_spec (f_size f) (N.of_nat (length cs) * bs)) as [Bad|_].
+    { rewrite (wf_size _ _ _ _ W) in Bad. lia. }
+    assert (M : f_size f mod bs = len tail).
+    { rewrite (wf_size _ _ _ _ W), FT. rewrite N.add_comm, N.mod_add by lia. apply N.mod_small. exact Lt. }
+    rewrite M.
+    destruct (precache_frag uncompress file bs d (f_frag_idx f)) as [r d'] eqn:PF.
+    destruct (pfrag_char uncompress file bs d _ r d' C PF) as (R1 & R2 & R3 & R4).
+    rewrite T, FL in R1, R4. cbn in R1. subst r.
+    rewrite (R4 _ eq_refl). cbn [fst snd].
+    assert ((f_frag_off f + len tail) mod u32m <= f_frag_off f + len tail) by (apply N.mod_le; discriminate).
+    destruct (N.ltb_spec bs ((f_frag_off f + len tail) mod u32m)); [lia|].
+    destruct (N.ltb_spec bs (f_frag_off f + len tail)); [lia|].
+    cbn. rewrite SL. reflexivity.
+Qed.
+
+(* ---------------- positional read ---------------- *)
+
+Notation pdata := (precache_data uncompress file bs true).
+Notation copyb := (copy_blocks uncompress file bs true).
+
+Lemma sparse_on_disk w : is_sparse w = true -> on_disk w = 0.
+Proof. unfold is_sparse. intro H. apply N.eqb_eq. exact H. Qed.
+
+Lemma copy_blocks_layout : forall ws cs d off size acc t,
+  dcoh d -> layout off ws cs -> size = total cs + t ->
+  (t = 0 \/ Forall (fun c => len c = bs) cs) ->
+  exists d', copyb d ws off 0 size acc = (Ok (acc ++ concat cs, 0, t), d') /\ dcoh d' /\ d_tbl d' = d_tbl d.
+Proof.
+  induction ws as [|w ws IH]; intros cs d off size acc t C L S T.
+  - destruct cs; [|contradiction]. rewrite total_nil in S. cbn. exists d.
+    rewrite app_nil_r. replace size with t by lia. auto.
+  - destruct cs as [|c cs]; [contradiction|].
+    destruct L as (U & P & Le & Full & NoWrap & L').
+    rewrite total_cons in S.
+    cbn [copy_blocks].
+    destruct (N.eqb_spec size 0) as [Z|NZ]; [lia|].
+    rewrite N.sub_0_r.
+    assert (D : N.min bs size = len c).
+    { destruct cs as [|c2 cs2].
+      - rewrite total_nil in S. destruct T as [T|T]; [lia|]. apply Forall_inv in T. lia.
+      - assert (len c = bs) by (apply Full; discriminate). lia. }
+    rewrite D.
+    assert (T' : t = 0 \/ Forall (fun c0 => len c0 = bs) cs).
+    { destruct T as [T|T]; [left; exact T|right; apply Forall_inv_tail in T; exact T]. }
+    cbn [concat]. rewrite app_assoc.
+    destruct (is_sparse w) eqn:SP.
+    + assert (Zc : c = zeros (len c)).
+      { destruct U as [_ Z|S1 _ _ _|raw S1 _ _ _ _]; [exact Z|congruence|congruence]. }
+      rewrite <- Zc.
+      rewrite (sparse_on_disk w SP), N.add_0_r in L'.
+      apply (IH cs d off (size - len c) (acc ++ c) t C L'); [lia|exact T'].
+    + destruct (pdata d off w) as [r d1] eqn:PD.
+      destruct (pdata_char uncompress file bs d off w r d1 C PD) as (R1 & R2 & R3 & R4).
+      destruct (getb_unpacks off w c bs U P Le) as [z G].
+      rewrite G in R1, R4. cbn in R1. subst r.
+      rewrite (R4 _ eq_refl). cbn [fst].
+      rewrite slice_0_app.
+      replace ((off + on_disk w) mod u64m) with (off + on_disk w) by (symmetry; apply N.mod_small; exact NoWrap).
+      destruct (IH cs d1 (off + on_disk w) (size - len c) (acc ++ c) t R2 L' ltac:(lia) T') as (d' & E & C' & Tb).
+      exists d'. split; [exact E|]. split; [exact C'|congruence].
+Qed.
+
+Lemma agree_read tbl f cs tail d :
+  wf_file tbl f cs tail -> dcoh d -> d_tbl d = tbl ->
+  fst (api_read uncompress file bs true d f 0 (f_size f)) = Ok (concat cs ++ tail).
+Proof.
+  intros W C T. pose proof (wf_layout _ _ _ _ W) as L.
+  pose proof (wf_small _ _ _ _ W) as Sm. pose proof (wf_size _ _ _ _ W) as Sz.
+  unfold api_read.
+  destruct (N.leb_spec 2147483647 (f_size f)); [lia|].
+  destruct (N.leb_spec (f_size f) 0) as [Z|NZ].
+  { (* empty file *)
+    assert (total cs = 0 /\ len tail = 0) as [Tc Tt] by lia.
+    destruct cs as [|c cs].
+    - destruct tail; [reflexivity|unfold len in Tt; cbn in Tt; lia].
+    - pose proof (layout_pos _ _ _ L ltac:(discriminate)). lia. }
+  rewrite N.sub_0_r.
+  destruct (N.ltb_spec (f_size f) (f_size f)); [lia|].
+  destruct (N.eqb_spec (f_size f) 0); [lia|].
+  assert (SK : skip_blocks bs (f_blocks f) (f_start f) 0 = (f_blocks f, f_start f, 0)).
+  { destruct (f_blocks f); cbn; [reflexivity|]. destruct (N.ltb_spec bs 0); [lia|reflexivity]. }
+  rewrite SK.
+  destruct (copy_blocks_layout (f_blocks f) cs d (f_start f) (f_size f) [] (len tail) C L Sz (tail_cases _ _ _ _ W))
+    as (d1 & E & C1 & T1).
+  rewrite E. cbn [app].
+  destruct (wf_tail _ _ _ _ W) as [Et|(F & P & Lt & fb & fsz & FL & B1 & B2 & SL)].
+  - subst tail. cbn. rewrite app_nil_r. reflexivity.
+  - destruct (N.eqb_spec (len tail) 0); [lia|].
+    destruct (precache_frag uncompress file bs d1 (f_frag_idx f)) as [r d2] eqn:PF.
+    destruct (pfrag_char uncompress file bs d1 _ r d2 C1 PF) as (R1 & R2 & R3 & R4).
+    rewrite T1, T, FL in R1, R4. cbn in R1. subst r.
+    rewrite (R4 _ eq_refl). rewrite N.add_0_r.
+    destruct (N.leb_spec fsz (f_frag_off f)); [lia|].
+    destruct (N.ltb_spec (fsz - f_frag_off f) (len tail)); [lia|].
+    cbn. rewrite SL. reflexivity.
+Qed.
+
+
+(* ---------------- the stream ---------------- *)
+
+Notation sloop := (stream_read_loop uncompress file bs).
+Notation refill := (stream_refill uncompress file bs).
+
+Lemma slice_all (c : list N) : slice c 0 (len c) = c.
+Proof. rewrite <- (app_nil_r c) at 1. apply slice_0_app. Qed.
+
+Lemma len_0_nil (l : list N) : len l = 0 -> l = [].
+Proof. destruct l; [reflexivity|]. unfold len. cbn. lia. Qed.
+
+(* refilling the stream buffer from the next block *)
+Lemma refill_block d s w ws c :
+  s_blocks s = w :: ws -> unpacks (s_disk_off s) w c -> 0 < len c -> len c <= bs ->
+  s_filesz s <> 0 -> (if s_filesz s <? bs then s_filesz s else bs) = len c ->
+  refill d s =
+  (Ok true, mkStream (s_filesz s - len c) ((s_disk_off s + on_disk w) mod u64m) ws (s_frag_idx s) (s_frag_off s) c 0, d).
+Proof.
+  intros B U P Le NZ Used. unfold stream_refill.
+  destruct (N.eqb_spec (s_filesz s) 0); [contradiction|].
+  rewrite B, Used.
+  destruct U as [S Z|S C O F|raw S C O F D].
+  - unfold is_sparse in S. rewrite S. cbn. rewrite <- Z. reflexivity.
+  - unfold is_sparse in S. rewrite S.
+    destruct (N.ltb_spec bs (on_disk w)); [lia|].
+    rewrite F, C. cbn. rewrite O, N.sub_diag, zeros_0, app_nil_r.
+    unfold len. rewrite Nat2N.id, firstn_all. reflexivity.
+  - unfold is_sparse in S. rewrite S.
+    destruct (N.ltb_spec bs (on_disk w)); [lia|].
+    rewrite F, C. destruct (D (len c) ltac:(lia)) as [rest E]. rewrite E.
+    destruct (N.eqb_spec (len c) 0); [lia|].
+    destruct (N.ltb_spec (len c) (len c)); [lia|].
+    cbn. rewrite N.sub_diag, zeros_0, app_nil_r. reflexivity.
+Qed.
+
+(* what the tail of the file needs from the fragment table *)
+Definition tail_ok (tbl : list (N * N)) (idx off : N) (tail : list N) : Prop :=
+  tail = [] \/
+  (0 < len tail /\ len tail < bs /\
+   exists fb fsz, frag_lookup uncompress file bs tbl idx = Ok (fb, fsz) /\
+                  off + len tail <= fsz /\ slice fb off (len tail) = tail).
+
+Lemma stream_tail tbl fuel d s n acc tail :
+  dcoh d -> d_tbl d = tbl -> s_blocks s = [] -> s_filesz s = len tail ->
+  len (s_buf s) <= s_buf_off s -> tail_ok tbl (s_frag_idx s) (s_frag_off s) tail ->
+  len tail <= n -> (3 <= fuel)%nat ->
+  fst (fst (sloop fuel d s n acc)) = Ok (acc ++ tail).
+Proof.
+  intros C T B Fs Ex TO Nn Fu.
+  destruct fuel as [|[|[|fuel]]]; try lia.
+  cbn [stream_read_loop].
+  destruct (N.eqb_spec n 0) as [Zn|NZn].
+  { assert (tail = []) by (apply len_0_nil; lia). subst tail. cbn. rewrite app_nil_r. reflexivity. }
+  destruct (N.ltb_spec (s_buf_off s) (len (s_buf s))); [lia|].
+  destruct TO as [E|(P & Lt & fb & fsz & FL & B1 & SL)].
+  - subst tail. unfold stream_refill. rewrite Fs. cbn. rewrite app_nil_r. reflexivity.
+  - unfold stream_refill. rewrite Fs, B.
+    destruct (N.eqb_spec (len tail) 0); [lia|].
+    destruct (N.ltb_spec (len tail) bs); [|lia].
+    destruct (precache_frag uncompress file bs d (s_frag_idx s)) as [r d1] eqn:PF.
+    destruct (pfrag_char uncompress file bs d _ r d1 C PF) as (R1 & R2 & R3 & R4).
+    rewrite T, FL in R1, R4. cbn in R1. subst r. rewrite (R4 _ eq_refl).
+    destruct (N.ltb_spec fsz (s_frag_off s)); [lia|].
+    destruct (N.ltb_spec (fsz - s_frag_off s) (len tail)); [lia|].
+    cbn [orb]. rewrite SL, N.sub_diag.
+    (* second pass: take the buffered tail *)
+    cbn [stream_read_loop s_buf s_buf_off s_filesz s_disk_off s_blocks s_frag_idx s_frag_off].
+    destruct (N.eqb_spec n 0); [contradiction|].
+    destruct (N.ltb_spec 0 (len tail)); [|lia].
+    rewrite N.sub_0_r, N.add_0_l.
+    replace (N.min (len tail) n) with (len tail) by lia.
+    rewrite slice_all.
+    (* third pass: done, or end of file *)
+    destruct (N.eqb_spec (n - len tail) 0); [reflexivity|].
+    destruct (N.ltb_spec (len tail) (len tail)); [lia|].
+    unfold stream_refill. cbn. reflexivity.
+Qed.
+
+Lemma stream_loop_layout tbl tail : forall ws cs fuel d s n acc,
+  dcoh d -> d_tbl d = tbl ->
+  s_blocks s = ws -> layout (s_disk_off s) ws cs ->
+  s_filesz s = total cs + len tail -> len (s_buf s) <= s_buf_off s ->
+  (len tail = 0 \/ Forall (fun c => len c = bs) cs) ->
+  tail_ok tbl (s_frag_idx s) (s_frag_off s) tail ->
+  total cs + len tail <= n -> (2 * length ws + 3 <= fuel)%nat ->
+  fst (fst (sloop fuel d s n acc)) = Ok (acc ++ concat cs ++ tail).
+Proof.
+  induction ws as [|w ws IH]; intros cs fuel d s n acc C T B L Fs Ex TC TO Nn Fu.
+  - destruct cs; [|contradiction]. rewrite total_nil in Fs, Nn. cbn [concat app].
+    apply (stream_tail tbl); auto; cbn in Fu; lia.
+  - destruct cs as [|c cs]; [contradiction|].
+    destruct L as (U & P & Le & Full & NoWrap & L').
+    rewrite total_cons in Fs, Nn.
+    assert (Used : (if s_filesz s <? bs then s_filesz s else bs) = len c).
+    { destruct cs as [|c2 cs2].
+      - rewrite total_nil in Fs. destruct TC as [TC|TC].
+        + replace (s_filesz s) with (len c) by lia. destruct (N.ltb_spec (len c) bs); lia.
+        + apply Forall_inv in TC. destruct (N.ltb_spec (s_filesz s) bs); lia.
+      - assert (len c = bs) by (apply Full; discriminate).
+        destruct (N.ltb_spec (s_filesz s) bs); lia. }
+    destruct fuel as [|[|fuel]]; try (cbn in Fu; lia).
+    cbn [stream_read_loop].
+    destruct (N.eqb_spec n 0); [lia|].
+    destruct (N.ltb_spec (s_buf_off s) (len (s_buf s))); [lia|].
+    rewrite (refill_block d s w ws c B U P Le ltac:(lia) Used).
+    cbn [stream_read_loop s_buf s_buf_off s_filesz s_disk_off s_blocks s_frag_idx s_frag_off].
+    destruct (N.eqb_spec n 0); [lia|].
+    destruct (N.ltb_spec 0 (len c)); [|lia].
+    rewrite N.sub_0_r, N.add_0_l.
+    replace (N.min (len c) n) with (len c) by lia.
+    rewrite slice_all.
+    cbn [concat]. rewrite <- app_assoc, app_assoc.
+    apply IH; cbn [s_buf s_buf_off s_filesz s_disk_off s_blocks s_frag_idx s_frag_off]; auto.
+    + rewrite N.mod_small by exact NoWrap. exact L'.
+    + lia.
+    + lia.
+    + destruct TC as [TC|TC]; [left; exact TC|right; apply Forall_inv_tail in TC; exact TC].
+    + lia.
+    + cbn [length] in Fu. lia.
+Qed.
+
+(* sqfs_istream_read on a new stream, asking for at least the whole file *)
+Lemma agree_stream tbl f cs tail d n :
+  wf_file tbl f cs tail -> dcoh d -> d_tbl d = tbl -> f_size f <= n ->
+  fst (fst (stream_read uncompress file bs d (stream_create f) n)) = Ok (concat cs ++ tail).
+Proof.
+  intros W C T Nn. pose proof (wf_layout _ _ _ _ W) as L.
+  pose proof (wf_small _ _ _ _ W) as Sm. pose proof (wf_size _ _ _ _ W) as Sz.
+  unfold stream_read.
+  set (n' := if 2147483647 <? n then 2147483647 else n).
+  assert (Nn' : f_size f <= n') by (unfold n'; destruct (N.ltb_spec 2147483647 n); lia).
+  destruct (N.eqb_spec bs 0); [lia|].
+  change (Ok (concat cs ++ tail)) with (Ok ([] ++ concat cs ++ tail)).
+  apply (stream_loop_layout tbl tail (f_blocks f) cs); cbn [stream_create s_buf s_buf_off s_filesz s_disk_off s_blocks s_frag_idx s_frag_off]; auto.
+  - cbn. lia.
+  - apply (tail_cases _ _ _ _ W).
+  - destruct (wf_tail _ _ _ _ W) as [E|(F & P & Lt & fb & fsz & FL & B1 & B2 & SL)]; [left; exact E|].
+    right. split; [exact P|]. split; [exact Lt|]. exists fb, fsz. auto.
+  - lia.
+  - pose proof (layout_total_ge _ _ _ L) as G. pose proof (layout_length _ _ _ L) as EL.
+    assert (Q : N.of_nat (length cs) <= n' / bs + 1).
+    { destruct (N.le_gt_cases (N.of_nat (length cs)) (n' / bs + 1)) as [|Gt]; [assumption|exfalso].
+      assert (M : (n' / bs + 2) * bs <= N.of_nat (length cs) * bs) by (apply N.mul_le_mono_r; lia).
+      rewrite N.mul_add_distr_r in M.
+      pose proof (N.div_mod n' bs ltac:(lia)) as DM. rewrite (N.mul_comm bs) in DM.
+      pose proof (N.mod_lt n' bs ltac:(lia)). lia. }
+    rewrite EL. lia.
 Qed.
 
 End Agree.
+
+(* every image satisfies the hypothesis on the file *)
+Lemma read_at_len (img : list N) off n b : read_at img off n = RdOk b -> len b = n.
+Proof.
+  unfold read_at.
+  destruct (N.eqb_spec n 0) as [Z|NZ]; [intro H; inversion H; subst; reflexivity|].
+  destruct (off_t_limit <=? off); [discriminate|].
+  destruct (N.leb_spec (off + n) (len img)) as [Le|]; [|discriminate].
+  intro H; inversion H; subst b; clear H.
+  unfold slice, len in *. rewrite firstn_length, skipn_length. lia.
+Qed.
